@@ -1452,9 +1452,12 @@ enum DeepShape {
     RemapAffineRawNest,
     RemapAffineApiNest,
     RemapMixedNest,
+    /// every level uses the previous level for both operands: a chain as a
+    /// DAG, a complete binary tree as an expansion
+    SelfShared,
 }
 
-const DEEP_SHAPES: [DeepShape; 9] = [
+const DEEP_SHAPES: [DeepShape; 10] = [
     DeepShape::ChainBinaryConst,
     DeepShape::ChainUnary,
     DeepShape::CombRight,
@@ -1464,6 +1467,7 @@ const DEEP_SHAPES: [DeepShape; 9] = [
     DeepShape::RemapAffineRawNest,
     DeepShape::RemapAffineApiNest,
     DeepShape::RemapMixedNest,
+    DeepShape::SelfShared,
 ];
 
 fn translation(x: f32, y: f32, z: f32) -> nalgebra::Affine3<f32> {
@@ -1593,6 +1597,21 @@ fn build_deep(shape: DeepShape, depth: usize) -> (Tree, Tree) {
             }
             t
         }
+        DeepShape::SelfShared => {
+            let mut t = Tree::x() + Tree::y();
+            for i in 0..depth {
+                t = match i % 4 {
+                    0 => t.clone().min(t),
+                    1 => t.clone() * t,
+                    2 => t.clone().max(t),
+                    _ => t.clone() + t,
+                };
+                if i == depth / 2 {
+                    mid = Some(t.clone());
+                }
+            }
+            t
+        }
     };
     let mid = mid.unwrap_or_else(|| t.clone());
     (t, mid)
@@ -1614,12 +1633,16 @@ fn deep_body(shape: DeepShape, depth: usize) -> Vec<(String, String)> {
     if t1 != c {
         bad.push((format!("deep_eq_clone:{shape:?}"), "a deep tree compares unequal to its clone".into()));
     }
+    // (== and Hash walk the expansion of a DAG: for the self-shared chain
+    // that is 2^depth nodes unless both sides are the same allocation, so
+    // the twin comparison and the hashes are left out for that shape)
+    let dag = shape == DeepShape::SelfShared;
     note("compare-with-twin");
-    if t1 != t2 {
+    if !dag && t1 != t2 {
         bad.push((format!("deep_eq_twin:{shape:?}"), "two separately built, structurally identical deep trees compare unequal".into()));
     }
     note("hash");
-    let (h1, h2, hc) = (hash_tree(&t1), hash_tree(&t2), hash_tree(&c));
+    let (h1, h2, hc) = if dag { (0, 0, 0) } else { (hash_tree(&t1), hash_tree(&t2), hash_tree(&c)) };
     if h1 != h2 || h1 != hc {
         bad.push((format!("deep_hash:{shape:?}"), "structurally identical deep trees hash differently".into()));
     }
